@@ -7,6 +7,11 @@
 //   P <hex>         pointer: "<text hex> <reserved ok>"
 //   RF <text hex>   FilePiece::ReadFloat on the given text (followed by a newline): "<bits>" or PERR
 //   RD <text hex>   FilePiece::ReadDouble likewise
+//   FS <buffer size> <item> ...   util::FileStream(fd, buffer size) << items; item = d:<bits64> f:<bits32> u:<hex uint64>
+//                   i:<hex int64> p:<hex pointer> s:<length of a string>.  The driver is linked with -Wl,--wrap=malloc: the
+//                   allocation FileStream's constructor makes is followed by 64 canary bytes.  Answer:
+//                   "<ok|OVERRUN:n> <bytes allocated> <file content equals the StringStream text: 1|0>" (n = bytes written past
+//                   the end of the allocation)
 //   SWEEPF <start> <count> <stride> <threads>   float bit patterns start, start+stride, ...: checks, for every pattern,
 //                   length <= ToStringBuf<float>::kBytes, no byte written beyond the reserved bytes, ReadFloat(text) bit-identical
 //                   (NaN: NaN); answer "<n checked> <max length> <first failing bits or ->"
@@ -30,7 +35,20 @@
 #include <thread>
 #include <vector>
 #include <inttypes.h>
+#include <unistd.h>
 #include <stdint.h>
+
+// --wrap=malloc: while armed, remember the first allocation and put canary bytes after it
+extern "C" void *__real_malloc(size_t);
+namespace { bool g_arm = false; unsigned char *g_block = NULL; size_t g_block_size = 0; const size_t kTail = 64; }
+extern "C" void *__wrap_malloc(size_t n) {
+  if (g_arm && !g_block) {
+    unsigned char *p = (unsigned char *)__real_malloc(n + kTail);
+    if (p) { memset(p + n, 0xC3, kTail); g_block = p; g_block_size = n; }
+    return p;
+  }
+  return __real_malloc(n);
+}
 
 namespace {
 const unsigned char kCanary = 0xA5;
@@ -141,6 +159,47 @@ void case_read(const std::string &arg, std::ostream &o, bool dbl) {
     if (dbl) { F64 v; v.f = f.ReadDouble(); o << std::hex << v.i; }
     else { F32 v; v.f = f.ReadFloat(); o << std::hex << v.i; }
   } catch (const util::ParseNumberException &) { o << "PERR"; }
+}
+
+template <class S> void fs_item(S &s, const std::string &item) {
+  uint64_t v = strtoull(item.c_str() + 2, NULL, 16);
+  switch (item[0]) {
+    case 'd': { F64 x; x.i = v; s << x.f; break; }
+    case 'f': { F32 x; x.i = (uint32_t)v; s << x.f; break; }
+    case 'u': s << (uint64_t)v; break;
+    case 'i': s << (int64_t)v; break;
+    case 'p': s << reinterpret_cast<const void *>((uintptr_t)v); break;
+    case 's': s << std::string((size_t)v, 'x'); break;
+    default: break;
+  }
+  s << ' ';
+}
+void case_fs(std::istringstream &in, std::ostream &o, const std::string &size_arg) {
+  size_t size = strtoull(size_arg.c_str(), NULL, 16);
+  std::vector<std::string> items;
+  std::string it;
+  while (in >> it) items.push_back(it);
+  char name[] = "/var/tmp/c19_fs_XXXXXX";
+  int fd = mkstemp(name);
+  if (fd < 0) { o << "EXC:mkstemp"; return; }
+  unlink(name);
+  g_block = NULL; g_block_size = 0;
+  {
+    g_arm = true;
+    util::FileStream s(fd, size);
+    g_arm = false;
+    for (size_t i = 0; i < items.size(); ++i) fs_item(s, items[i]);
+  }   // destructor flushes
+  size_t past = 0;
+  if (g_block) for (size_t i = 0; i < kTail; ++i) if (g_block[g_block_size + i] != 0xC3) past = i + 1;
+  util::StringStream ref;
+  for (size_t i = 0; i < items.size(); ++i) fs_item(ref, items[i]);
+  std::string content(ref.str().size() + 8, 0);
+  ssize_t got = pread(fd, &content[0], content.size(), 0);
+  close(fd);
+  content.resize(got < 0 ? 0 : got);
+  if (past) o << "OVERRUN:" << std::dec << past; else o << "ok";
+  o << ' ' << std::dec << g_block_size << ' ' << (content == ref.str() ? 1 : 0);
 }
 
 void case_ptr(const std::string &arg, std::ostream &o) {
@@ -301,6 +360,7 @@ int main() {
       else if (cmd == "U64") case_int<uint64_t>(a, o);
       else if (cmd == "I64") case_int<int64_t>(a, o);
       else if (cmd == "P") case_ptr(a, o);
+      else if (cmd == "FS") { std::istringstream in2(line); std::string c0, sz; in2 >> c0 >> sz; case_fs(in2, o, sz); }
       else if (cmd == "RF") case_read(a, o, false);
       else if (cmd == "RD") case_read(a, o, true);
       else if (cmd == "SWEEPF") sweep_float(strtoull(a.c_str(), NULL, 16), strtoull(b.c_str(), NULL, 16), strtoull(c.c_str(), NULL, 16), atoi(d.c_str()), o);
